@@ -9,5 +9,7 @@ CONSTANTS
   MaxBurst = 4
   MaxHold = 2
   MaxSick = 2
-  Depth = 26
+  MaxReset = 2
+  AllowReset = TRUE
+  Depth = 28
 CHECK_DEADLOCK FALSE
